@@ -244,11 +244,17 @@ type Engine struct {
 	maxDecisions   int
 
 	solo    soloEnv
+	preCtx  map[int]*preCtxEntry // race build: contexts created by the controller before the threads exist
 	stuck   bool // some thread can never be joined (blocked inside tengo for good)
 	pending []logEntry
 	nViol   int
 	late []lateItem
 	meta map[int]opMeta
+}
+
+type preCtxEntry struct {
+	ctx    context.Context
+	cancel context.CancelFunc
 }
 
 type opMeta struct {
@@ -412,6 +418,39 @@ func (e *Engine) RunTasks() {
 	// hooks go live, otherwise a straggler would show up as an unknown thread
 	synctest.Wait()
 	e.arrive = make(chan arrival)
+	if RaceBuild {
+		// In the race build a context must not be created by the thread that uses
+		// it: the controller's helper goroutine that cancels it would then touch
+		// memory written by a simulated thread without any happens-before edge
+		// (the hand-offs are invisible to the detector). Created here, before the
+		// threads, everything is ordered by goroutine creation.
+		e.preCtx = map[int]*preCtxEntry{}
+		for ti, ops := range p.Tasks {
+			for oi, op := range ops {
+				if op.Ctx <= 0 || op.Ctx > len(p.Ctxs) {
+					continue
+				}
+				switch p.Ctxs[op.Ctx-1].Kind {
+				case "cancel":
+					ctx, cancel := context.WithCancel(context.Background())
+					e.preCtx[ti<<20|oi] = &preCtxEntry{ctx, cancel}
+				case "preCancelled":
+					ctx, cancel := context.WithCancel(context.Background())
+					cancel()
+					e.preCtx[ti<<20|oi] = &preCtxEntry{ctx, cancel}
+				case "childOfCancelled":
+					parent, pc := context.WithCancel(context.Background())
+					pc()
+					ctx, cancel := context.WithCancel(parent)
+					e.preCtx[ti<<20|oi] = &preCtxEntry{ctx, cancel}
+				case "background":
+				default:
+					e.Fatal = "the race build has no fake clock: context kind " + p.Ctxs[op.Ctx-1].Kind + " is not supported"
+					return
+				}
+			}
+		}
+	}
 	cur.Store(e)
 	e.active.Store(true)
 	start := time.Now()
@@ -790,6 +829,9 @@ func (e *Engine) onArrive(t *thread, a *arrival) {
 		}
 	case SiteCtxMade:
 		cs := &ctxState{idx: a.ctxIdx, spec: e.Plan.Ctxs[a.ctxIdx], cancel: a.cancel, run: t.run}
+		if pe := e.preCtx[t.task<<20|t.curOp]; pe != nil {
+			cs.cancel = pe.cancel
+		}
 		switch cs.spec.Kind {
 		case "timeout":
 			cs.hasDL = true
